@@ -1,5 +1,312 @@
 package main
 
+import (
+	"fmt"
+	"go/ast"
+	"go/token"
+	"strings"
+)
+
+// ---------------------------------------------------------------- C12: statement-level translation
+// c12Seq translates a statement list that mutates a fixed set of tracked local variables and leaves through
+// `return` statements into a Gallina term in continuation-passing style: every tracked Go variable x is the Coq
+// variable v_x (rebound by let / by the binders of a local continuation), an `if` that is followed by more
+// statements binds the rest as a local function k<n> over all tracked variables, so assignments made inside a
+// branch reach the code after the branch exactly as in Go. Expressions go through the shared translator (tr.expr).
+type c12Var struct{ goName, coqType, init string }
+
+type c12Gen struct {
+	t      *tr
+	vars   []c12Var
+	nk     int
+	twoVal map[string][2]string         // printed callee of `a, b := f(args)` -> Coq templates (value, second value); %s = translated first argument
+	ret    func(*ast.ReturnStmt) string // translation of a return statement
+}
+
+func (g *c12Gen) tracked(name string) bool {
+	for _, v := range g.vars {
+		if v.goName == name {
+			return true
+		}
+	}
+	return false
+}
+
+func (g *c12Gen) binders() string {
+	var parts []string
+	for _, v := range g.vars {
+		parts = append(parts, fmt.Sprintf("(v_%s : %s)", v.goName, v.coqType))
+	}
+	return strings.Join(parts, " ")
+}
+
+func (g *c12Gen) names() string {
+	var parts []string
+	for _, v := range g.vars {
+		parts = append(parts, "v_"+v.goName)
+	}
+	return strings.Join(parts, " ")
+}
+
+// assign returns the let-bindings (Coq name, term) of one assignment statement
+func (g *c12Gen) assign(x *ast.AssignStmt, scoped bool) [][2]string {
+	t := g.t
+	if x.Tok != token.DEFINE && x.Tok != token.ASSIGN {
+		t.fail("unsupported assignment operator in %s", printNode(t.fset, x))
+		return nil
+	}
+	lhsName := func(e ast.Expr) string {
+		id, ok := e.(*ast.Ident)
+		if !ok {
+			t.fail("assignment to non-identifier in %s", printNode(t.fset, x))
+			return ""
+		}
+		if id.Name == "_" {
+			return "_"
+		}
+		if !g.tracked(id.Name) {
+			t.fail("assignment to untracked variable %s", id.Name)
+			return ""
+		}
+		if x.Tok == token.DEFINE && scoped {
+			// := inside a nested block / if-initialiser declares a new variable whose value must not leak out
+			t.fail("scoped redeclaration of %s in %s", id.Name, printNode(t.fset, x))
+			return ""
+		}
+		return "v_" + id.Name
+	}
+	if len(x.Lhs) == 1 && len(x.Rhs) == 1 {
+		n := lhsName(x.Lhs[0])
+		v := t.expr(x.Rhs[0])
+		if n == "_" || n == "" {
+			return nil
+		}
+		return [][2]string{{n, v}}
+	}
+	if len(x.Lhs) == 2 && len(x.Rhs) == 1 {
+		var tmpl [2]string
+		arg := ""
+		switch r := x.Rhs[0].(type) {
+		case *ast.CallExpr:
+			tm, ok := g.twoVal[printNode(t.fset, r.Fun)]
+			if !ok {
+				t.fail("unmapped two-valued call %s", printNode(t.fset, r.Fun))
+				return nil
+			}
+			tmpl = tm
+			if len(r.Args) > 0 {
+				arg = t.expr(r.Args[0])
+			}
+		case *ast.TypeAssertExpr:
+			tm, ok := g.twoVal["assert:"+printNode(t.fset, r)]
+			if !ok {
+				t.fail("unmapped type assertion %s", printNode(t.fset, r))
+				return nil
+			}
+			tmpl = tm
+		default:
+			t.fail("unsupported two-valued assignment %s", printNode(t.fset, x))
+			return nil
+		}
+		var out [][2]string
+		// both right-hand values are computed from the variables as they were before the statement
+		a, b := lhsName(x.Lhs[0]), lhsName(x.Lhs[1])
+		va, vb := tmpl[0], tmpl[1]
+		if strings.Contains(va, "%s") {
+			va = fmt.Sprintf(va, arg)
+		}
+		if strings.Contains(vb, "%s") {
+			vb = fmt.Sprintf(vb, arg)
+		}
+		if a != "_" && a != "" && b != "_" && b != "" {
+			return [][2]string{{"'(" + a + ", " + b + ")", "(" + va + ", " + vb + ")"}}
+		}
+		if a != "_" && a != "" {
+			out = append(out, [2]string{a, va})
+		}
+		if b != "_" && b != "" {
+			out = append(out, [2]string{b, vb})
+		}
+		return out
+	}
+	t.fail("unsupported assignment %s", printNode(t.fset, x))
+	return nil
+}
+
+// seq: k is the Coq term to continue with when the list falls through ("" = falling through is an error)
+func (g *c12Gen) seq(list []ast.Stmt, k string, depth int) string {
+	t := g.t
+	if len(list) == 0 {
+		if k == "" {
+			return t.fail("statement list falls through without continuation")
+		}
+		return k
+	}
+	s, tail := list[0], list[1:]
+	switch x := s.(type) {
+	case *ast.ReturnStmt:
+		return g.ret(x)
+	case *ast.AssignStmt:
+		binds := g.assign(x, depth > 0)
+		body := g.seq(tail, k, depth)
+		for i := len(binds) - 1; i >= 0; i-- {
+			body = "(let " + binds[i][0] + " := " + binds[i][1] + " in " + body + ")"
+		}
+		return body
+	case *ast.IfStmt:
+		pre := ""
+		k2 := k
+		if len(tail) > 0 {
+			g.nk++
+			name := fmt.Sprintf("k%d", g.nk)
+			rest := g.seq(tail, k, depth)
+			pre = "let " + name + " := (fun " + g.binders() + " => " + rest + ") in "
+			k2 = "(" + name + " " + g.names() + ")"
+		}
+		var initBinds [][2]string
+		if x.Init != nil {
+			as, ok := x.Init.(*ast.AssignStmt)
+			if !ok {
+				return t.fail("unsupported if-initialiser %s", printNode(t.fset, x.Init))
+			}
+			initBinds = g.assign(as, true)
+		}
+		cond := t.expr(x.Cond)
+		thenS := g.seq(x.Body.List, k2, depth+1)
+		var elseS string
+		switch e := x.Else.(type) {
+		case nil:
+			elseS = k2
+			if elseS == "" {
+				return t.fail("if without else at the end of a list that must return")
+			}
+		case *ast.BlockStmt:
+			elseS = g.seq(e.List, k2, depth+1)
+		case *ast.IfStmt:
+			elseS = g.seq([]ast.Stmt{e}, k2, depth+1)
+		}
+		body := "(if " + cond + " then " + thenS + " else " + elseS + ")"
+		for i := len(initBinds) - 1; i >= 0; i-- {
+			body = "(let " + initBinds[i][0] + " := " + initBinds[i][1] + " in " + body + ")"
+		}
+		return "(" + pre + body + ")"
+	}
+	return t.fail("unsupported statement %s", strings.Join(strings.Fields(printNode(t.fset, s)), " "))
+}
+
+// c12ApplyPrefix: everything (*PatchSet).Apply does before its first loop — the default for an empty outpath, the
+// two stat calls, and the choice between falling back to applyRewrite and going on to the in-place eligibility test.
+func c12ApplyPrefix(o *out) {
+	const d = "lib/binpatch"
+	const coqName = "apply_prefix"
+	p, fd := findFunc(d, "PatchSet", "Apply")
+	if fd == nil {
+		o.brokenDef(coqName, "function lib/binpatch:PatchSet.Apply not found")
+		return
+	}
+	var prefix []ast.Stmt
+	sawLoop := false
+	for _, s := range fd.Body.List {
+		if _, ok := s.(*ast.RangeStmt); ok {
+			sawLoop = true
+			break
+		}
+		if _, ok := s.(*ast.ForStmt); ok {
+			sawLoop = true
+			break
+		}
+		prefix = append(prefix, s)
+	}
+	if !sawLoop {
+		o.brokenDef(coqName, "Apply has no eligibility loop any more")
+		return
+	}
+	fs := funcSpec{dir: d, recv: "PatchSet", name: "Apply",
+		leaves: map[string]string{
+			"err != nil": "v_err", "err == nil": "(negb v_err)", "nil != err": "v_err", "nil == err": "(negb v_err)",
+			"infile.Name()": "h_name", "ininfo.Size()": "(isize v_ininfo)", "outinfo.Size()": "(isize v_outinfo)",
+			"canWrite(infile)": "h_can_write", // the handle's access mode allows writing (F_GETFL)
+		},
+		types: map[string]string{"outpath": "str", "infile.Name()": "str", "err != nil": "bool", "err == nil": "bool", "canWrite(infile)": "bool"},
+		calls: map[string]string{"canOverwrite": "can_ow"},
+	}
+	t := o.newTr(p, fs)
+	g := &c12Gen{t: t,
+		vars: []c12Var{{"outpath", "bytes", "outpath"}, {"ininfo", "info", "info0"}, {"outinfo", "info", "info0"}, {"err", "bool", "false"}, {"size", "Z", "0"}},
+		twoVal: map[string][2]string{
+			"infile.Stat": {"fstat_info", "fstat_err"},
+			"os.Lstat":    {"(lstat_info %s)", "(lstat_err %s)"},
+		}}
+	for _, v := range g.vars {
+		t.locals[v.goName] = "v_" + v.goName
+	}
+	g.ret = func(r *ast.ReturnStmt) string {
+		if len(r.Results) != 1 {
+			return t.fail("unsupported return %s", printNode(t.fset, r))
+		}
+		txt := printNode(t.fset, r.Results[0])
+		if txt == "nil" {
+			return "(return_k false)"
+		}
+		if txt == "err" {
+			return "(return_k v_err)"
+		}
+		if ce, ok := r.Results[0].(*ast.CallExpr); ok && printNode(t.fset, ce.Fun) == "p.applyRewrite" && len(ce.Args) == 2 &&
+			printNode(t.fset, ce.Args[0]) == "infile" {
+			return "(rewrite_k " + t.expr(ce.Args[1]) + ")"
+		}
+		return t.fail("unsupported return %s", txt)
+	}
+	body := g.seq(prefix, "(inplace_k v_outpath v_ininfo v_outinfo v_size)", 0)
+	if t.err != nil {
+		o.brokenDef(coqName, t.err.Error())
+		return
+	}
+	o.f("Definition %s {info R : Type} (rewrite_k : bytes -> R) (inplace_k : bytes -> info -> info -> Z -> R) (return_k : bool -> R)\n", coqName)
+	o.f("  (fstat_info : info) (fstat_err : bool) (lstat_info : bytes -> info) (lstat_err : bytes -> bool)\n")
+	o.f("  (can_ow : info -> info -> bool) (isize : info -> Z) (info0 : info) (h_can_write : bool) (h_name outpath : bytes) : R :=\n")
+	o.f("  let v_outpath := outpath in let v_ininfo := info0 in let v_outinfo := info0 in let v_err := false in let v_size := 0 in\n  %s.\n", body)
+	o.f("(* from lib/binpatch:PatchSet.Apply, statements before the eligibility loop; rewrite_k = return p.applyRewrite(infile, .),\n   inplace_k = control reaches the loop, return_k = any other return *)\n")
+}
+
+// c12HasLinks: hasLinks of fileutil_unix.go as a function of (type assertion succeeded, Nlink)
+func c12HasLinks(o *out) {
+	const d = "lib/binpatch"
+	const coqName = "has_links"
+	p := loadPkg(d)
+	var fd *ast.FuncDecl
+	if f, ok := p.files["fileutil_unix.go"]; ok {
+		for _, dcl := range f.Decls {
+			if x, ok := dcl.(*ast.FuncDecl); ok && x.Name.Name == "hasLinks" && x.Recv == nil {
+				fd = x
+			}
+		}
+	}
+	if fd == nil {
+		o.brokenDef(coqName, "function hasLinks not found in lib/binpatch/fileutil_unix.go")
+		return
+	}
+	fs := funcSpec{dir: d, name: "hasLinks", leaves: map[string]string{"stat.Nlink": "v_stat"}, types: map[string]string{"ok": "bool"}}
+	t := o.newTr(p, fs)
+	g := &c12Gen{t: t, vars: []c12Var{{"stat", "Z", "0"}, {"ok", "bool", "false"}},
+		twoVal: map[string][2]string{"assert:info.Sys().(*syscall.Stat_t)": {"nlink", "sys_ok"}}}
+	for _, v := range g.vars {
+		t.locals[v.goName] = "v_" + v.goName
+	}
+	g.ret = func(r *ast.ReturnStmt) string {
+		if len(r.Results) != 1 {
+			return t.fail("unsupported return")
+		}
+		return t.expr(r.Results[0])
+	}
+	body := g.seq(fd.Body.List, "", 0)
+	if t.err != nil {
+		o.brokenDef(coqName, t.err.Error())
+		return
+	}
+	o.f("Definition %s (sys_ok : bool) (nlink : Z) : bool :=\n  let v_stat := 0 in let v_ok := false in\n  %s.\n(* from lib/binpatch/fileutil_unix.go:hasLinks; sys_ok = info.Sys() is a *syscall.Stat_t, nlink = its Nlink *)\n", coqName, body)
+}
+
 func init() {
 	generators["C12_gen"] = func(o *out) {
 		const d = "lib/binpatch"
@@ -41,6 +348,18 @@ func init() {
 			params: "(is_regular same_file has_links : bool)", retType: "bool",
 			leaves: map[string]string{"outinfo.Mode().IsRegular()": "is_regular",
 				"os.SameFile(ininfo, outinfo)": "same_file", "hasLinks(outinfo)": "has_links"}})
+		// the strategy choice as a function of what the handle and the output path refer to (file-system history)
+		o.decisionFunc(funcSpec{dir: d, recv: "", name: "canOverwrite", coqName: "can_overwrite_io",
+			params: "(in_regular out_regular same_file in_links out_links : bool)", retType: "bool",
+			leaves: map[string]string{"outinfo.Mode().IsRegular()": "out_regular", "ininfo.Mode().IsRegular()": "in_regular",
+				"os.SameFile(ininfo, outinfo)": "same_file", "os.SameFile(outinfo, ininfo)": "same_file",
+				"hasLinks(outinfo)": "out_links", "hasLinks(ininfo)": "in_links"}})
+		c12HasLinks(o)
+		c12ApplyPrefix(o)
+		o.hasStmt(d, "PatchSet", "Apply", "if _, err := infile.WriteAt(p.Blobs[i], patch.Offset); err != nil { return err }", "apply_writes_handle")
+		o.hasStmt(d, "PatchSet", "Apply", "return infile.Truncate(size)", "apply_truncates")
+		o.hasStmt(d, "PatchSet", "applyRewrite", "if _, err := infile.Seek(0, 0); err != nil { return err }", "rewrite_seeks_start")
+		o.hasStmt(d, "PatchSet", "applyRewrite", "return outfile.Commit()", "rewrite_returns_commit")
 		rwLeaves := map[string]string{"delta": "delta"}
 		o.condOf(funcSpec{dir: d, recv: "PatchSet", name: "applyRewrite", coqName: "rewrite_out_of_order",
 			params: "(delta : Z)", retType: "bool", leaves: rwLeaves}, "delta", 0)
